@@ -109,6 +109,31 @@ _PRED = re.compile(r"\bhw\.([A-Za-z_][A-Za-z0-9_]*(?:\.[A-Za-z_][A-Za-z0-9_]*)*)
 _preds = None
 
 
+def _py_chains(text):
+    import ast
+    try:
+        tree = ast.parse(text)
+    except SyntaxError:
+        return []
+    out = []
+    for node in ast.walk(tree):
+        if not isinstance(node, ast.Attribute):
+            continue
+        names = []
+        cur = node
+        while isinstance(cur, ast.Attribute):
+            names.append(cur.attr)
+            cur = cur.value
+        if isinstance(cur, ast.Name):
+            names.append(cur.id)
+        names.reverse()
+        if "hw" in names[:-1]:
+            i = names.index("hw")
+            if names[i + 1:]:
+                out.append(".".join(names[i + 1:]))
+    return out
+
+
 def predicates():
     """{path tuple: source}; source 'texts' for rulebook texts and implicit.py, else 'code' (other .py of the package,
     first component capitalised - family names are, attributes and methods are not)"""
@@ -131,8 +156,14 @@ def predicates():
             text = open(path, encoding="utf-8").read()
         except OSError:
             continue
-        for m in _PRED.finditer(text):
-            p = tuple(m.group(1).split("."))
+        if path.endswith(".py"):
+            # Python sources: the attribute chains the CODE evaluates (hw.X.Y, device.hw.X.Y, self.hw.X), taken from the
+            # syntax tree - a chain that is only written in a comment, a docstring or a message is not a predicate
+            found = _py_chains(text)
+        else:
+            found = [m.group(1) for m in _PRED.finditer(text)]
+        for chain in found:
+            p = tuple(chain.split("."))
             while p and p[-1] in NON_FAMILY:   # hw.PC.soft does not exist, but hw.soft.startswith does
                 p = p[:-1]
             if not p or p[0] in NON_FAMILY:
